@@ -302,7 +302,9 @@ func (t *Template) ParseFromTrustedTemplate(tmpl TrustedTemplate) (*Template, er
 func (t *Template) Clone() (*Template, error) {
 	t.nameSpace.mu.Lock()
 	defer t.nameSpace.mu.Unlock()
-	if t.escapeErr != nil {
+	if t.escapeErr != nil || t.nameSpace.escaped {
+		// (escaped also covers an execution that failed before any template was analysed:
+		// Parse is refused from then on, and a clone would accept it again.)
 		return nil, fmt.Errorf("html/template: cannot Clone %q after it has executed", t.Name())
 	}
 	textClone, err := t.text.Clone()
